@@ -2,6 +2,6 @@ SPECIFICATION Spec
 CONSTANTS
   Threads <- One
   Conf <- ConfA
-  AtomicCloexec = FALSE
+  AtomicCloexec = TRUE
   ChildrenExit = FALSE
 INVARIANT NoViolation ParentStd
